@@ -1112,3 +1112,90 @@ def resolve_import_name(m: Module, text: Optional[str]) -> Optional[str]:
         base = mod if attr is None else f"{mod}.{attr}"
         return base + ("." + rest if rest else "")
     return text
+
+
+
+def desugar_comprehension_assignments(fn_node):
+    """Copy of a function definition in which `x = [E for ...]` / `{E for ...}` / `{K: V for ...}` (also `x = set(E for ...)`, `list(...)`, `dict(...)` of a
+    generator) are written as the accumulating loops they abbreviate:  x = [] / set() / {};  for ...: if ...: x.append(E) / x.add(E) / x[K] = V.
+    Used by rules that are phrased over loops, so that the comprehension spelling of the same code is decided by the same rule."""
+    import copy as _copy
+    fn = _copy.deepcopy(fn_node)
+
+    def build(target_name, comp, at):
+        if isinstance(comp, ast.ListComp):
+            init, mk = ast.List(elts=[], ctx=ast.Load()), lambda: ast.Expr(value=ast.Call(func=ast.Attribute(value=ast.Name(id=target_name, ctx=ast.Load()), attr="append", ctx=ast.Load()), args=[comp.elt], keywords=[]))
+        elif isinstance(comp, ast.SetComp):
+            init, mk = ast.Call(func=ast.Name(id="set", ctx=ast.Load()), args=[], keywords=[]), lambda: ast.Expr(value=ast.Call(func=ast.Attribute(value=ast.Name(id=target_name, ctx=ast.Load()), attr="add", ctx=ast.Load()), args=[comp.elt], keywords=[]))
+        else:
+            init, mk = ast.Dict(keys=[], values=[]), lambda: ast.Assign(targets=[ast.Subscript(value=ast.Name(id=target_name, ctx=ast.Load()), slice=comp.key, ctx=ast.Store())], value=comp.value)
+        inner = [mk()]
+        for g in reversed(comp.generators):
+            if g.is_async:
+                return None
+            for t in reversed(g.ifs):
+                inner = [ast.If(test=t, body=inner, orelse=[])]
+            it = g.iter
+            inner = [ast.For(target=g.target, iter=it, body=inner, orelse=[], type_comment=None)]
+        stmts = [ast.Assign(targets=[ast.Name(id=target_name, ctx=ast.Store())], value=init)] + inner
+        for s2 in stmts:
+            for x in ast.walk(s2):
+                if not hasattr(x, "lineno"):
+                    ast.copy_location(x, at)
+            ast.fix_missing_locations(s2)
+        return stmts
+
+    def as_comp(v):
+        if isinstance(v, (ast.ListComp, ast.SetComp, ast.DictComp)):
+            return v
+        if isinstance(v, ast.Call) and isinstance(v.func, ast.Name) and v.func.id in ("list", "set", "tuple", "frozenset") and len(v.args) == 1 and not v.keywords \
+                and isinstance(v.args[0], ast.GeneratorExp):
+            g = v.args[0]
+            cls = ast.ListComp if v.func.id in ("list", "tuple") else ast.SetComp
+            return ast.copy_location(cls(elt=g.elt, generators=g.generators), v)
+        return None
+
+    def block(stmts):
+        out = []
+        for st in stmts:
+            if isinstance(st, (ast.FunctionDef, ast.AsyncFunctionDef, ast.ClassDef)):
+                out.append(st)
+                continue
+            for fld in ("body", "orelse", "finalbody"):
+                sub = getattr(st, fld, None)
+                if isinstance(sub, list) and sub and isinstance(sub[0], ast.stmt):
+                    setattr(st, fld, block(sub))
+            for h in getattr(st, "handlers", []) or []:
+                h.body = block(h.body)
+            if isinstance(st, ast.Return) and st.value is not None and as_comp(st.value) is not None:
+                new = build("_comp_result", as_comp(st.value), st)
+                if new is not None:
+                    out.extend(block_unnest(new))
+                    out.append(ast.copy_location(ast.Return(value=ast.copy_location(ast.Name(id="_comp_result", ctx=ast.Load()), st)), st))
+                    continue
+            if isinstance(st, ast.Assign) and len(st.targets) == 1 and isinstance(st.targets[0], ast.Name):
+                comp = as_comp(st.value)
+                if comp is not None:
+                    # a nested generator as first iterable: `for t in (f(p) for p in paths)` -> `for p in paths: t = f(p)`
+                    new = build(st.targets[0].id, comp, st)
+                    if new is not None:
+                        out.extend(block_unnest(new))
+                        continue
+            out.append(st)
+        return out
+
+    def block_unnest(stmts):
+        res = []
+        for st in stmts:
+            if isinstance(st, ast.For) and isinstance(st.iter, ast.GeneratorExp) and len(st.iter.generators) == 1 and not st.iter.generators[0].ifs and isinstance(st.target, ast.Name):
+                g = st.iter.generators[0]
+                bind = ast.copy_location(ast.Assign(targets=[ast.Name(id=st.target.id, ctx=ast.Store())], value=st.iter.elt), st)
+                ast.fix_missing_locations(bind)
+                st = ast.copy_location(ast.For(target=g.target, iter=g.iter, body=[bind] + block_unnest(st.body), orelse=[], type_comment=None), st)
+            elif isinstance(st, (ast.For, ast.If)):
+                st.body = block_unnest(st.body)
+            res.append(st)
+        return res
+
+    fn.body = block(fn.body)
+    return fn
